@@ -14,6 +14,7 @@ impl SchemaInner {
         self.check_types_exists()?;
         self.check_root_types()?;
         self.check_objects()?;
+        self.check_subscription()?;
         self.check_input_objects()?;
         self.check_interfaces()?;
         self.check_unions()?;
@@ -60,7 +61,8 @@ impl SchemaInner {
         check(
             &self.types,
             std::iter::once(self.env.registry.query_type.as_str())
-                .chain(self.env.registry.mutation_type.as_deref()),
+                .chain(self.env.registry.mutation_type.as_deref())
+                .chain(self.env.registry.subscription_type.as_deref()),
         )?;
 
         for ty in self.types.values() {
@@ -91,7 +93,8 @@ impl SchemaInner {
                             std::iter::once(field.ty.type_name())
                                 .chain(field.arguments.values().map(|arg| arg.ty.type_name()))
                         })
-                        .flatten(),
+                        .flatten()
+                        .chain(interface.implements.iter().map(AsRef::as_ref)),
                 )?,
                 Type::Union(union) => check(&self.types, &union.possible_types)?,
                 Type::Subscription(subscription) => check(
@@ -175,7 +178,42 @@ impl SchemaInner {
                         let interface = ty.as_interface().ok_or_else(|| {
                             format!("Type \"{}\" is not interface", interface_name)
                         })?;
-                        check_is_valid_implementation(obj, interface)?;
+                        check_is_valid_implementation(&self.types, obj, interface)?;
+                    }
+                }
+            }
+        }
+
+        Ok(())
+    }
+
+    fn check_subscription(&self) -> Result<(), SchemaError> {
+        for ty in self.types.values() {
+            if let Type::Subscription(subscription) = ty {
+                for field in subscription.fields.values() {
+                    // The field must return a type where IsOutputType(fieldType) returns true.
+                    if let Some(ty) = self.types.get(field.ty.type_name())
+                        && !ty.is_output_type()
+                    {
+                        return Err(format!(
+                            "Field \"{}.{}\" must return a output type",
+                            subscription.name, field.name
+                        )
+                        .into());
+                    }
+
+                    for arg in field.arguments.values() {
+                        // The argument must accept a type where
+                        // IsInputType(argumentType) returns true.
+                        if let Some(ty) = self.types.get(arg.ty.type_name())
+                            && !ty.is_input_type()
+                        {
+                            return Err(format!(
+                                "Argument \"{}.{}.{}\" must accept a input type",
+                                subscription.name, field.name, arg.name
+                            )
+                            .into());
+                        }
                     }
                 }
             }
@@ -337,7 +375,7 @@ impl SchemaInner {
                             let implemenented_type = ty.as_interface().ok_or_else(|| {
                                 format!("Type \"{}\" is not interface", interface_name)
                             })?;
-                            check_is_valid_implementation(interface, implemenented_type)?;
+                            check_is_valid_implementation(&self.types, interface, implemenented_type)?;
                         }
                     }
                 }
@@ -351,6 +389,17 @@ impl SchemaInner {
         // https://spec.graphql.org/October2021/#sec-Unions.Type-Validation
         for ty in self.types.values() {
             if let Type::Union(union) = ty {
+                // A Union type must include one or more unique member types (the
+                // generated federation `_Entity` union is empty when there are no
+                // entities).
+                if union.possible_types.is_empty() && union.name != "_Entity" {
+                    return Err(format!(
+                        "Union \"{}\" must include one or more member types",
+                        union.name
+                    )
+                    .into());
+                }
+
                 // The member types of a Union type must all be Object base
                 // types; Scalar, Interface and Union types must not be member
                 // types of a Union. Similarly, wrapping types must not be
@@ -374,9 +423,25 @@ impl SchemaInner {
 }
 
 fn check_is_valid_implementation(
+    types: &IndexMap<String, Type>,
     implementing_type: &impl BaseContainer,
     implemented_type: &Interface,
 ) -> Result<(), SchemaError> {
+    // If implementedType declares it implements any interfaces, type must also
+    // implement those interfaces.
+    for interface_name in &implemented_type.implements {
+        if !implementing_type.implements().contains(interface_name) {
+            return Err(format!(
+                "{} \"{}\" must implement interface \"{}\" because it is implemented by interface \"{}\"",
+                implementing_type.graphql_type(),
+                implementing_type.name(),
+                interface_name,
+                implemented_type.name
+            )
+            .into());
+        }
+    }
+
     for field in implemented_type.fields.values() {
         let impl_field = implementing_type.field(&field.name).ok_or_else(|| {
             format!(
@@ -388,30 +453,27 @@ fn check_is_valid_implementation(
             )
         })?;
 
+        // field must include an argument of the same name for every argument defined
+        // in implementedField, and that argument must accept the same type (invariant)
         for arg in field.arguments.values() {
-            let impl_arg = match impl_field.argument(&arg.name) {
-                Some(impl_arg) => impl_arg,
-                None if !arg.ty.is_nullable() => {
-                    return Err(format!(
-                        "Field \"{}.{}\" requires argument \"{}\" defined by interface \"{}.{}\"",
-                        implementing_type.name(),
-                        field.name,
-                        arg.name,
-                        implemented_type.name,
-                        field.name,
-                    )
-                    .into());
-                }
-                None => continue,
-            };
-
-            if !arg.ty.is_subtype(&impl_arg.ty) {
-                return Err(format!(
-                    "Argument \"{}.{}.{}\" is not sub-type of \"{}.{}.{}\"",
-                    implemented_type.name,
+            let impl_arg = impl_field.argument(&arg.name).ok_or_else(|| {
+                format!(
+                    "Field \"{}.{}\" requires argument \"{}\" defined by interface \"{}.{}\"",
+                    implementing_type.name(),
                     field.name,
                     arg.name,
+                    implemented_type.name,
+                    field.name,
+                )
+            })?;
+
+            if impl_arg.ty != arg.ty {
+                return Err(format!(
+                    "Argument \"{}.{}.{}\" must have the same type as \"{}.{}.{}\"",
                     implementing_type.name(),
+                    field.name,
+                    arg.name,
+                    implemented_type.name,
                     field.name,
                     arg.name
                 )
@@ -419,9 +481,28 @@ fn check_is_valid_implementation(
             }
         }
 
+        // field may include additional arguments not defined in implementedField, but
+        // any additional argument must not be required
+        for impl_arg in impl_field.arguments().values() {
+            if !field.arguments.contains_key(&impl_arg.name)
+                && !impl_arg.ty.is_nullable()
+                && impl_arg.default_value.is_none()
+            {
+                return Err(format!(
+                    "Argument \"{}.{}.{}\" is not defined by interface \"{}.{}\" and must not be required",
+                    implementing_type.name(),
+                    field.name,
+                    impl_arg.name,
+                    implemented_type.name,
+                    field.name,
+                )
+                .into());
+            }
+        }
+
         // field must return a type which is equal to or a sub-type of (covariant) the
         // return type of implementedField field’s return type
-        if !impl_field.ty().is_subtype(&field.ty) {
+        if !is_valid_implementation_field_type(types, impl_field.ty(), &field.ty) {
             return Err(format!(
                 "Field \"{}.{}\" is not sub-type of \"{}.{}\"",
                 implementing_type.name(),
@@ -434,6 +515,48 @@ fn check_is_valid_implementation(
     }
 
     Ok(())
+}
+
+/// https://spec.graphql.org/October2021/#IsValidImplementationFieldType()
+fn is_valid_implementation_field_type(
+    types: &IndexMap<String, Type>,
+    field_type: &TypeRef,
+    implemented_field_type: &TypeRef,
+) -> bool {
+    match (field_type, implemented_field_type) {
+        // a non-null type implements the same type, nullable or not
+        (TypeRef::NonNull(field_type), TypeRef::NonNull(implemented_field_type)) => {
+            is_valid_implementation_field_type(types, field_type, implemented_field_type)
+        }
+        (TypeRef::NonNull(field_type), implemented_field_type) => {
+            is_valid_implementation_field_type(types, field_type, implemented_field_type)
+        }
+        (TypeRef::List(field_type), TypeRef::List(implemented_field_type)) => {
+            is_valid_implementation_field_type(types, field_type, implemented_field_type)
+        }
+        (TypeRef::Named(field_type), TypeRef::Named(implemented_field_type)) => {
+            field_type == implemented_field_type
+                || match (
+                    types.get(field_type.as_ref()),
+                    types.get(implemented_field_type.as_ref()),
+                ) {
+                    // an object type that is a possible type of the union
+                    (Some(Type::Object(obj)), Some(Type::Union(union))) => {
+                        union.possible_types.contains(&obj.name)
+                    }
+                    // an object or interface type that implements the interface
+                    (Some(Type::Object(obj)), Some(Type::Interface(interface))) => {
+                        obj.implements.contains(&interface.name)
+                    }
+                    (Some(Type::Interface(sub)), Some(Type::Interface(interface))) => {
+                        sub.implements.contains(&interface.name)
+                    }
+                    _ => false,
+                }
+        }
+        // a nullable type never implements a non-null type, a list never a named type
+        _ => false,
+    }
 }
 
 #[cfg(test)]
